@@ -79,7 +79,19 @@ pub fn instance_json(i: &InstanceInformation) -> Value {
 fn announcement_packet(service: &str, inst: &Value, ttl: u32) -> Result<Vec<u8>, String> {
     let info = instance_of(inst);
     let full = format!("{}.{}", info.escaped_instance_name(), service);
-    let full_name = Name::new(&full).map_err(|e| e.to_string())?.into_owned();
+    // (a peer running another implementation may use any UTF-8 text as its instance label; where this library's
+    // own validation refuses the text, the name is assembled from labels, as such a peer's packet would carry it)
+    let full_name = match Name::new(&full) {
+        Ok(n) => n.into_owned(),
+        Err(_) => {
+            let mut labels = vec![simple_dns::Label::new_unchecked(text(&inst["name"]).into_bytes())];
+            let svc: Name<'static> = Name::new(service).map_err(|e| e.to_string())?.into_owned();
+            for l in svc.get_labels() {
+                labels.push(simple_dns::Label::new_unchecked(l.as_bytes().to_vec()));
+            }
+            Name::new_with_labels(&labels).into_owned()
+        }
+    };
     let records = info.into_records(&full_name, ttl).map_err(|e| e.to_string())?;
     let mut p = Packet::new_reply(1);
     for r in &records {
@@ -125,7 +137,7 @@ fn announcement_bytes(ann: &Value, service: &str) -> Result<Vec<u8>, String> {
         }
         "service-ptr" => {
             let mut p = Packet::new_reply(1);
-            let target = Name::new(&format!("{}.{}", text(&ann["inst"]["name"]), service)).map_err(|e| e.to_string())?.into_owned();
+            let target = Name::new_unchecked(Box::leak(format!("{}.{}", text(&ann["inst"]["name"]), service).into_boxed_str())).into_owned();
             p.answers.push(ResourceRecord::new(Name::new(service).map_err(|e| e.to_string())?.into_owned(), CLASS::IN, 120, RData::PTR(PTR(target))));
             p.build_bytes_vec_compressed().map_err(|e| e.to_string())?
         }
@@ -496,6 +508,29 @@ pub fn run_datagram(a: &Args) {
         q.answers.push(ResourceRecord::new(Name::new_unchecked("_svc._tcp.local"), CLASS::IN, ttl, RData::PTR(PTR(full.clone()))));
         q.answers.push(ResourceRecord::new(Name::new_unchecked("other._svc._tcp.local"), CLASS::IN, ttl, RData::A(A { address: 1 })));
         grams.push(("valid query with known answers".into(), q.build_bytes_vec_compressed().unwrap()));
+    }
+    // responses of an ordinary peer of the watched service whose TXT record holds unusual character-strings
+    // (the listener turns them into an attribute map)
+    {
+        let txts: Vec<Vec<&[u8]>> = vec![
+            vec![b"k=\""], vec![b"\""], vec![b"="], vec![b"k="], vec![b";"], vec![b"k=\"v\""], vec![b"\"=\""], vec![b"k=\"\""], vec![b" k = v "], vec![b"k", b"k=v", b"K=w"],
+            vec![b"\xff=\xfe"], vec![b"k=\xc3"], vec![b"=v"], vec![b""], vec![b"", b"a=b", b""], vec![&[b'x'; 255]], vec![b"a=1;b=2"], vec![b"k=v=w=="], vec![b"\\=\\"], vec![b"'='"],
+        ];
+        for (i, strings) in txts.iter().enumerate() {
+            let mut m = vec![0, 0, 0x84, 0, 0, 0, 0, 2, 0, 0, 0, 0];
+            let owner = format!("\x02t{}\x04_svc\x04_tcp\x05local\x00", (b'a' + (i % 26) as u8) as char).into_bytes();
+            m.extend(&owner);
+            let rdlen: usize = strings.iter().map(|s| 1 + s.len()).sum();
+            m.extend([0, 16, 0, 1, 0, 0, 0, 120]);
+            m.extend((rdlen as u16).to_be_bytes());
+            for s in strings {
+                m.push(s.len() as u8);
+                m.extend(*s);
+            }
+            m.extend(&owner);
+            m.extend([0, 1, 0, 1, 0, 0, 0, 120, 0, 4, 10, 2, 2, i as u8]);
+            grams.push(("hostile-txt response".into(), m));
+        }
     }
     let mut hostile_labels: Vec<Vec<u8>> = vec![vec![0xFFu8], vec![0xC3], vec![0x00], vec![b'.'], vec![b'\\'], vec![0xFF; 63], vec![b'a'; 63], b"me".to_vec(), vec![0xE9, 0x80]];
     // labels whose text rendering is longer than the label (every invalid byte becomes a 3-byte replacement
